@@ -21,7 +21,12 @@ def gen(rng, n_cases):
         for _ in range(rng.randint(0, 3)):
             a, b = rng.randint(n, 2 * n), rng.randint(0, 2 * n)
             X[a] = X[b]
-        yield {"X": X[:n], "Xo": X[n:], "n_ieq": n_ieq, "n_eq": n_eq, "pseed": int(rng.randint(1000)),
+        # numerically equal but not bitwise equal decision vectors: signed zeros
+        if rng.randint(3) == 0:
+            X = np.where((X == 0) & (rng.random_sample(X.shape) < 0.5), -0.0, X)
+        # integer-coded parents (integer dtype) against float offspring
+        int_pop = bool(rng.randint(6) == 0 and np.all(X[:n] == np.round(X[:n])))
+        yield {"X": X[:n], "Xo": X[n:], "int_pop": int_pop, "n_ieq": n_ieq, "n_eq": n_eq, "pseed": int(rng.randint(1000)),
                "grid": [None, 0.5, 0.1][rng.randint(3)], "shift": float(rng.choice([-1.0, 0.0, 1.0, 3.0])),
                "warm": bool(rng.randint(3) == 0), "shared_default": bool(rng.randint(2)),
                "mode": ["normal", "normal", "normal", "off-none", "inplace"][rng.randint(5)],
@@ -44,7 +49,7 @@ def run(case, replay=None):
     from pymoo.core.evaluator import Evaluator
     from pymoode.survival.replacement import ImprovementReplacement
     cfgk = ("n_ieq", "n_eq", "pseed", "grid", "shift", "warm", "shared_default", "seed")
-    rec = Record(NAME, {k: case[k] for k in cfgk}, {"X": np.array(case["X"], dtype=float), "Xo": np.array(case["Xo"], dtype=float)})
+    rec = Record(NAME, dict({k: case[k] for k in cfgk}, int_pop=bool(case.get("int_pop"))), {"X": np.array(case["X"], dtype=float), "Xo": np.array(case["Xo"], dtype=float)})
     mode = case.get("mode", "normal")
     rec.cfg["mode"] = mode
     if mode == "single":
@@ -52,7 +57,11 @@ def run(case, replay=None):
     X, Xo = rec.inp["X"], rec.inp["Xo"]
     n, d = X.shape
     prob = _problem(d, case["n_ieq"], case["n_eq"], case["pseed"], case["grid"], case["shift"])
-    pop = Population.new("X", X.copy())
+    pop = Population.new("X", X.astype(np.int64) if case.get("int_pop") else X.copy())
+    if case.get("int_pop"):
+        rec.tags.add("int-dtype-parents")
+    if (np.signbit(X) & (X == 0)).any() or (np.signbit(Xo) & (Xo == 0)).any():
+        rec.tags.add("signed-zero")
     off = Population.new("X", Xo.copy())
     Evaluator().eval(prob, pop)
     Evaluator().eval(prob, off)
